@@ -379,6 +379,10 @@ type reflStruct struct {
 // genReflect returns a value for zap.Reflect and whether encoding/json can
 // encode it.
 func genReflect(t *rapid.T, faults bool) (v any, label string) {
+	if rapid.IntRange(0, 24).Draw(t, "bigReflected") == 0 {
+		// a reflected value whose encoding is far larger than any pooled scratch buffer starts with
+		return map[string]any{"big": strings.Repeat("0123456789abcdef", rapid.SampledFrom([]int{70, 1100, 4200}).Draw(t, "bigLen")), "n": 1}, "bigmap"
+	}
 	n := 9
 	if faults {
 		n = 13
